@@ -80,6 +80,8 @@ func checkDynamicNullability(c *core.Ctx) {
 }
 
 func runC08(c *core.Ctx) {
+	c.Rule("MAYBE", "maybe-fitting arguments are asserted at run time; type-function overloads are not matched by arity")
+	checkMaybeLoops(c, "MAYBE")
 	c.Rule("NULLT", "AND/OR are nullable iff an operand is")
 	checkConnectiveTypes(c, "NULLT")
 	c.Rule("PADT", "outer join pads with nullable column types")
